@@ -219,3 +219,10 @@ Definition ktriuix (n k : nat) : option (list (list nat)) :=
   ktri_rec k_triuix_st k_triuix_leaf k_triuix_lo k_triuix_hi k (zn n) (zn k) 0 0%Z.
 Definition kxmapix (ntaxa nparent : nat) (unique_parents : bool) : option (list (list nat)) :=
   k_xmapix ktriudix ktriuix ntaxa nparent unique_parents.
+
+(** * 7. UsefulnessCriterionIntegerSelection.problem: the bounds of the decision space.
+      decn_space_lower = numpy.repeat(<k_uc_int_lower>, len(xmap)); decn_space_upper = numpy.repeat(<k_uc_int_upper>, len(xmap));
+      decn_space = numpy.stack([decn_space_lower, decn_space_upper]).  The translator pins that both bounds are ONE number
+      repeated len(xmap) times and that the per-cross nmating array enters the number through its sum only. *)
+Definition kuc_int_bounds (nc np : nat) (nm : list Z) (nx : nat) : option (list Z * list Z) :=
+  np_stack2 (repeat k_uc_int_lower nx) (repeat (k_uc_int_upper (zn nc) (zn np) (sumZ nm)) nx).
